@@ -26,6 +26,9 @@ def declare(reg):
         path="asimap/client.py",
     )
     reg.union("HandlerResult", ["None", "bool", "str"])
+    # g_out: ghost list of what was written to the per-user subprocess
+    reg.classdef("IMAPSubprocessInterface", {"client_handler": "ref:PreAuthenticated", "g_out": "list[str]"}, path="asimap/server.py")
+    reg.classdef("FetchAtt", {"partial": "opt[tuple[int,int]]", "peek": "bool"}, path="asimap/fetch.py")
     reg.classdef("IMAPUserServer", {"uid_vv": "int", "maildir": "str", "mailbox": "ref:MH", "active_mailboxes": "dict[str,ref:Mailbox]",
                                     "activating_mailboxes": "dict[str,opaque:Event]", "db": "ref:Database"}, path="asimap/user_server.py")
     # g_out: ghost list of everything pushed to this client, in order
